@@ -73,6 +73,13 @@ def check(ctx, cname, cfg, seqs):
         if shape != exp:
             ctx.fail(case, "tree differs from the documented construction rules", shape, exp,
                      tag="prefix-quirk" if prefix_quirk(evs) else None)
+        if k % 5 == 2:
+            # the same explicit configuration on top of the HTML flavour's defaults (an explicitly EMPTY option is still explicit)
+            shape_h = T.impl_build_shape(T.build(evs, cfg, html_flavour=True))
+            if shape_h != exp:
+                ctx.fail(dict(case, builder="HTMLTreeBuilder subclass given the same options explicitly"),
+                         "tree differs from the documented construction rules for the configuration given", shape_h, exp,
+                         tag="prefix-quirk" if prefix_quirk(evs) else "html-flavour-defaults")
         forest = T.Forest(soup)
         bad = T.walk_check(forest)
         if bad:
